@@ -150,7 +150,17 @@ def cmd_scratch(name, checks, tier='quick'):
     assert rc == 0, out
     try:
         rc, out = sh('git apply %s' % os.path.join(dst, 'patch.diff'), cwd=wt)
-        assert rc == 0, out
+        if rc != 0:
+            rc, out = sh('git apply --3way %s' % os.path.join(
+                dst, 'patch.diff'), cwd=wt)
+        if rc != 0:
+            print('%s: patch does not apply on HEAD: %s' % (
+                name, out.strip()[-200:]), flush=True)
+            meta['detected_by']['apply'] = dict(
+                verdict='patch-does-not-apply-on-HEAD', buckets=[])
+            checks = []
+        else:
+            meta['detected_by'].pop('apply', None)
         for c in checks:
             t0 = time.time()
             rc, out = sh('%s run.py %s %s' % (PY, c, tier), cwd=ROOT,
